@@ -286,10 +286,12 @@ pub fn run(t: &[String]) -> String {
             if pos != out.len() { return format!("ROWCOUNT {}", out.len()); }
             format!("S {}", parts.join(" / "))
         }
-        // eid_engine <k1> <readings1...> / <k2> <readings2...>
-        // End to end on one real shard: DEFINE, k1 STOREs (payload x = 0..), shutdown, a second real
-        // ShardManager on the same directories, k2 more STOREs, then QUERY through the real dispatcher and
-        // JSON renderer. Output: rows stored, rows the QUERY returned, and the sorted x values returned.
+        // eid_engine <flush:0|1> <k1> <readings1...> / <k2> <readings2...>
+        // End to end on one real shard: DEFINE, k1 STOREs (payload x = 0..), optionally FLUSH (the events
+        // move to a segment and the WAL is pruned), shutdown, a second real ShardManager on the same
+        // directories, k2 more STOREs, then QUERY through the real dispatcher and JSON renderer.
+        // Output: events stored, rows the QUERY returned, their ids (sorted), and - when nothing is
+        // missing - whether the ids increase in append order (x order).
         "eid_engine" => {
             ensure_config();
             use snel_db::command::dispatcher::dispatch_command;
@@ -297,7 +299,8 @@ pub fn run(t: &[String]) -> String {
             use snel_db::engine::schema::SchemaRegistry;
             use snel_db::engine::shard::manager::ShardManager;
             use snel_db::shared::response::json::JsonRenderer;
-            let mut parts = t[1..].split(|x| x == "/");
+            let flush = t[1] == "1";
+            let mut parts = t[2..].split(|x| x == "/");
             let l1 = parts.next().unwrap();
             let l2 = parts.next().unwrap();
             let ks = [l1[0].parse::<usize>().unwrap(), l2[0].parse::<usize>().unwrap()];
@@ -331,11 +334,19 @@ pub fn run(t: &[String]) -> String {
                         x += 1;
                     }
                     let q = run_cmd("QUERY t".to_string()).await?;
+                    if flush && life == 0 {
+                        let f = run_cmd("FLUSH".to_string()).await?;
+                        if !f.contains("200") && !f.to_lowercase().contains("ok") { return Err(format!("flush: {f}")); }
+                    }
                     let errs = mgr.shutdown_all().await;
                     if !errs.is_empty() { return Err(format!("shutdown {errs:?}")); }
-                    for _ in 0..500 {
-                        if count_wal_lines(&wal.join("shard-0")) >= x { break; }
-                        tokio::time::sleep(std::time::Duration::from_millis(10)).await;
+                    if !flush {
+                        for _ in 0..500 {
+                            if count_wal_lines(&wal.join("shard-0")) >= x { break; }
+                            tokio::time::sleep(std::time::Duration::from_millis(10)).await;
+                        }
+                    } else {
+                        tokio::time::sleep(std::time::Duration::from_millis(50)).await;
                     }
                     Ok(q)
                 });
@@ -364,9 +375,12 @@ pub fn run(t: &[String]) -> String {
                 }
             }
             rows.sort();
-            let xs: Vec<String> = rows.iter().map(|r| r.0.to_string()).collect();
-            let ids: Vec<u64> = rows.iter().map(|r| r.1).collect();
-            format!("Q stored={} returned={} x={} ids={}", x, rows.len(), if xs.is_empty() { "-".to_string() } else { xs.join(",") }, join(&ids))
+            let by_x: Vec<u64> = rows.iter().map(|r| r.1).collect();
+            let complete = rows.len() == x && rows.iter().enumerate().all(|(i, r)| r.0 == i as i64);
+            let order = if !complete { "?" } else if by_x.windows(2).all(|w| w[0] < w[1]) { "increasing" } else { "not_increasing" };
+            let mut ids = by_x.clone();
+            ids.sort();
+            format!("Q stored={} returned={} ids={} order={}", x, rows.len(), join(&ids), order)
         }
         // eid_raw <u64>: EventId round trip (from_raw / raw / is_zero)
         "eid_raw" => {
